@@ -36,6 +36,9 @@ func checkC18(r *Run) {
 		})
 	}
 	ruleFieldHandlersUnconditional(r, p, "ISOL")
+	if lh := p.Method("", "Logger", "Hook"); lh != nil {
+		ruleHookAppend(r, p, lh) // per-request loggers that add a hook must not share the hook array
+	}
 	// the next request's event must not start with the previous request's rejected line
 	ruleBufferPoolClean(r, p, []string{""})
 	r.Floor("A11", 2)
@@ -241,6 +244,19 @@ func ruleHlogIsolation(r *Run, p *Prog) {
 						if fvr, isFV := src.(*ssa.FreeVar); isFV && freeVarOwner(f, fvr) == nh {
 							okc = requestLevel(f)
 						}
+					}
+				}
+				// … on every path to the next handler: an early hand-over ("already installed further up")
+				// passes the request on with whatever logger its context inherited
+				if okc {
+					isServe := func(x ssa.Instruction) bool {
+						cc, ok := x.(*ssa.Call)
+						return ok && cc.Call.IsInvoke() && cc.Call.Method.Name() == "ServeHTTP"
+					}
+					if skip, _ := pathExists(f, nil, isServe, func(x ssa.Instruction) bool { return x == ssa.Instruction(c) }, nil); skip {
+						r.Ob("ISOL", FnName(f)+"/per-request-copy-on-every-path", p.Pos(c.Pos()), false, true, "NewHandler can hand the request to the next handler without attaching a fresh With().Logger() copy (an early path skips it): requests whose context already carries a logger — sub-requests built from r.Context(), a parent router's — then update one shared logger")
+					} else {
+						r.Ob("ISOL", FnName(f)+"/per-request-copy-on-every-path", p.Pos(c.Pos()), true, true, "every path to next.ServeHTTP attaches the per-request copy first")
 					}
 				}
 				r.Ob("ISOL", FnName(f)+"/per-request-copy", p.Pos(c.Pos()), okc, true, tern(okc, "the request context receives log.With().Logger(), a copy made for this request", "NewHandler puts "+descr(recv)+" into the request context instead of a fresh With().Logger() copy of the configured logger: handlers' UpdateContext calls then modify a logger shared between requests"))
